@@ -10,7 +10,7 @@ package dtlcp
 // newReplayWindow/check; no number is accepted twice; a fresh number that is newer than everything
 // accepted, or within max(32, min(size,64)) of the newest, is accepted.
 //
-//verif:harness props=C16 paths=60000 reach=done,accepted,rejected
+//verif:harness props=C16,C19 paths=60000 reach=done,accepted,rejected
 func VerifHarness_C16_window_bmc() {
 	size := verifNondetInt("size")
 	verifAssume(size >= -4 && size <= 1<<20)
@@ -39,6 +39,9 @@ func VerifHarness_C16_window_bmc() {
 			verifReach("rejected")
 		}
 		verifAssert("C16.window.atMostOnce", verifImplies(acc[i], !seen))
+		// C19: duplicate suppression is done at the record layer only (retransmissions are byte-identical and the
+		// handshake layer does not check message_seq on receipt): a duplicated datagram must not be processed twice
+		verifAssert("C19.dup.duplicateRecordSuppressed", verifImplies(acc[i], !seen))
 		eff := uint64(verifIteInt(size > 64, 64, verifIteInt(size < 32, 32, size)))
 		within := verifOr(!any, verifOr(seqs[i] > newest, uint64(newest-seqs[i]) < eff))
 		verifAssert("C16.window.freshWithinWindowAccepted", verifImplies(verifAnd(!seen, within), acc[i]))
